@@ -165,7 +165,7 @@ func (x *Exec) rangeAxiom(key string, t *Term) {
 	if allocBound {
 		guard = c.Le(p, x.curAlloc)
 	}
-	if strings.HasPrefix(key, "A!") || strings.HasPrefix(key, "M!") && !strings.HasSuffix(key, ".len") {
+	if strings.HasPrefix(key, "A!") || strings.HasPrefix(key, "M!") && !x.mapLenKeys[key] {
 		i := c.NewBound("i", SInt)
 		sel := c.Select(c.Select(t, p), i)
 		x.assumeGlobal(c.Forall([]*Term{p, i}, c.Implies(guard, c.InRange(sel, lo, hi)), []*Term{sel}))
@@ -599,7 +599,7 @@ func (x *Exec) slot(off, idx *Term) *Term {
 func (x *Exec) dynAxiom(key string, t *Term, k *Term, _ *Term) {
 	c := x.C
 	p := c.NewBound("p", SInt)
-	if strings.HasPrefix(key, "A!") || strings.HasPrefix(key, "M!") && !strings.HasSuffix(key, ".len") {
+	if strings.HasPrefix(key, "A!") || strings.HasPrefix(key, "M!") && !x.mapLenKeys[key] {
 		i := c.NewBound("i", SInt)
 		sel := c.Select(c.Select(t, p), i)
 		x.assumeGlobal(c.Forall([]*Term{p, i}, c.Implies(c.Ne(sel, c.Int(0)), c.Eq(x.dyntype(sel), k)), []*Term{sel}))
